@@ -173,6 +173,30 @@ pub fn run() -> i32 {
     r.boxes.push(json!({"box": "condensed rules mixing insertion with substitution / deletion / metathesis alternatives, planted", "rules": mixed.len(), "applications": mt.evals, "ok_unchanged": mt.ok_same, "runtime_errors": mt.errs, "rejected": mt.rejected, "crashed": mt.crashed}));
     r.guard(mt.ok_same > 100_000, "mixed condensed rules: more than 100k applications returned Ok");
     tot.evals += mt.evals; tot.ok_same += mt.ok_same; tot.errs += mt.errs; tot.rejected += mt.rejected; tot.crashed += mt.crashed; tot.viols.extend(mt.viols);
+    // the planted literal inside a MANDATORY optional (minimum >= 1) of the rule: an optional that has to be taken at least once requires its
+    // segment just as a bare item does. All sequences of 1..3 environment items over {(ɮ,1:2), (ɮ t,2:3), (ɮ,1:), (t ɮ,1:1), #, $, C, (C)} that
+    // contain one of the mandatory ones, after and before the underline, for insertion / substitution / deletion
+    let opt_items = ["(ɮ,1:2)", "(ɮ t,2:3)", "(ɮ,1:)", "(t ɮ,1:1)", "#", "$", "C", "(C)"];
+    let mut opt_rules: Vec<String> = vec![];
+    for a in 0..opt_items.len() { for b in 0..=opt_items.len() { for c in 0..=opt_items.len() {
+        if b == opt_items.len() && c != opt_items.len() { continue; }
+        let mut seq = vec![opt_items[a]]; if b < opt_items.len() { seq.push(opt_items[b]); } if c < opt_items.len() { seq.push(opt_items[c]); }
+        if !seq.iter().any(|x| x.contains('ɮ')) { continue; }
+        // `#` only at the outer end of a side
+        if seq.iter().enumerate().any(|(i, x)| *x == "#" && i + 1 != seq.len()) { continue; }
+        let after = seq.join(" "); let before: String = seq.iter().rev().map(|x| match *x { "(ɮ t,2:3)" => "(t ɮ,2:3)", "(t ɮ,1:1)" => "(ɮ t,1:1)", y => y }).collect::<Vec<_>>().join(" ");
+        for (lhs, rhs) in [("*", "e"), ("*", "⟨ta⟩"), ("a", "e"), ("a", "*"), ("V", "[+nasal]")] {
+            opt_rules.push(format!("{} > {} / _ {}", lhs, rhs, after));
+            opt_rules.push(format!("{} > {} / {} _", lhs, rhs, before));
+            if lhs == "*" { opt_rules.push(format!("{} > {} / t _ {}", lhs, rhs, after)); }
+        }
+    } } }
+    opt_rules.sort(); opt_rules.dedup();
+    let mut ot = acc();
+    par_fold(opt_rules.len(), 64, acc, |i, a| eval_text(&opt_rules[i], &words, a), |a| { ot.evals += a.evals; ot.ok_same += a.ok_same; ot.errs += a.errs; ot.rejected += a.rejected; ot.crashed += a.crashed; ot.viols.extend(a.viols); });
+    r.boxes.push(json!({"box": "the literal inside a mandatory optional of the environment (insertion, substitution, deletion; after and before the underline)", "rules": opt_rules.len(), "applications": ot.evals, "ok_unchanged": ot.ok_same, "runtime_errors": ot.errs, "rejected": ot.rejected, "crashed": ot.crashed}));
+    r.guard(ot.ok_same > 20_000, "mandatory-optional box: more than 20k applications returned Ok");
+    tot.evals += ot.evals; tot.ok_same += ot.ok_same; tot.errs += ot.errs; tot.rejected += ot.rejected; tot.crashed += ot.crashed; tot.viols.extend(ot.viols);
     let _ = before_mixed;
     // blank and comment-only lines
     for t in ["", "   ", ";; only a comment", "  ;; indented comment"] { eval_text(t, &words, &mut tot); }
